@@ -155,6 +155,10 @@ def rule_register_discipline(rep, idx, rid='R1'):
         ('number', lambda X: X.num(5)), ('boolean', lambda X: X.boolean(1)),
         ('folded binary op (1+2)', lambda X: X.binop('PLUS', X.num(1), X.num(2))),
         ('folded unary op -(1)', lambda X: X.unop('MINUS', X.num(1))),
+        ('folded unary op ~(0)', lambda X: X.unop('NOT', X.num(0))),
+        ('folded unary op ~(3)', lambda X: X.unop('NOT', X.num(3))),
+        ('folded logical (1 and 0)', lambda X: X.binop('AND', X.num(1), X.num(0))),
+        ('folded equality (2 = 2)', lambda X: X.binop('EQ', X.num(2), X.num(2))),
         ('folded relation (1<2)', lambda X: X.binop('LS', X.num(1), X.num(2))),
         ('large constant 100000', lambda X: X.num(100000)),
         ('string', lambda X: X.string('hi')),
@@ -888,6 +892,11 @@ def _is_leaf_expr(e):
                                    e.fields.get('constValue') is not None)
 
 
+def _same_constant(x, y):
+    cx, cy = (x.fields.get('constValue') if isinstance(x, Obj) else None), (y.fields.get('constValue') if isinstance(y, Obj) else None)
+    return isinstance(cx, IV) and isinstance(cy, IV) and cx.concrete() and cy.concrete() and cx.lo == cy.lo
+
+
 def actual_stores(M, first_slot, actuals):
     """Linear register tracking over a call template up to the transfer of control.  Code for a sub-expression leaves its value in the
     requested register; unless the sub-expression is a leaf (variable, constant, string: a load into that register only) it may
@@ -944,6 +953,8 @@ def actual_stores(M, first_slot, actuals):
         if got is None:
             if not any('STAI %d ' % (first_slot + i) in p_ or 'STAI %s ' % (first_slot + i) in p_ for p_ in problems):
                 problems.append('actual %d is never stored to sp[%d]' % (i, first_slot + i))
+        elif got[0] == 'val' and got[1] is not a and _same_constant(got[1], a):
+            pass            # another occurrence of the same constant: the value stored is the value asked for
         elif not (got[0] == 'val' and got[1] is a):
             problems.append('sp[%d] receives %s instead of actual %d' % (first_slot + i, got[1].name if got[0] == 'val' else got[0], i))
     return problems, slots
@@ -956,7 +967,10 @@ def rule_call_registers(rep, idx, rid='R14'):
     for callkind, mk, first in (('func', lambda M, a: M.X.call('fn_a', a), 2), ('proc', lambda M, a: M.X.call('pr_a', a), 1),
                                 ('syscall', lambda M, a: M.X.syscall(1, a), 2)):
         for kinds in itertools.chain(itertools.product(act_kinds, repeat=2), [('var', 'andor', 'var'), ('op', 'call', 'andor'),
-                                                                               ('var', 'gr-call'), ('num', 'neg-call'), ('gr-call', 'var'), ('op', 'gr-call', 'var')]):
+                                                                               ('var', 'gr-call'), ('num', 'neg-call'), ('gr-call', 'var'), ('op', 'gr-call', 'var'),
+                                                                               ('num', 'call', 'num'), ('num', 'gr-call', 'num'), ('var', 'call', 'var'),
+                                                                               ('num', 'num', 'call'), ('num', 'var', 'num'),
+                                                                               ('k', 'call', 'k'), ('k', 'k', 'call'), ('k', 'var', 'k'), ('k', 'gr-call', 'k')]):
             M = CodeGenModel(idx, 'A')
             for n in ('a', 'b', 'c', "a'", "b'", "c'"):
                 M.symbol(n, 'VAR', 'f')
@@ -968,6 +982,7 @@ def rule_call_registers(rep, idx, rid='R14'):
             # comparisons / negation that OptimiseExpr rewrites into fresh nodes, with a call inside: taken through the driver's real passes
             ok_['gr-call'] = lambda n: M.X.binop('GR', M.X.call('fn_' + n, [M.X.num(1)]), M.X.var(n))
             ok_['neg-call'] = lambda n: M.X.unop('MINUS', M.X.call('fn_' + n, [M.X.num(1)]))
+            ok_['k'] = lambda n: M.X.num(7)          # the same constant in several positions
             M.real_contains_call = True
             # every actual goes through the passes the driver runs before code generation (annotations included)
             actuals = [run_pipeline(M, ok_[k](n)) for k, n in zip(kinds, ('a', 'b', 'c'))]
